@@ -175,6 +175,36 @@ pub fn module_level_order(text: &str) -> Result<Vec<Vec<(String, String)>>, Stri
     Ok(out)
 }
 
+/// (kind, name) of the blocks directly inside PROJECT, in written order
+pub fn project_level_order(text: &str) -> Result<Vec<(String, String)>, String> {
+    let toks = lex(text)?;
+    let mut out = Vec::new();
+    let mut depth = 0;
+    let mut i = 0;
+    while i < toks.len() {
+        match toks[i].kind {
+            LK::Begin => {
+                if depth == 1 {
+                    let kind = toks.get(i + 1).map(|t| t.text.clone()).unwrap_or_default();
+                    let name = toks.get(i + 2).filter(|t| t.kind == LK::Word).map(|t| t.text.clone()).unwrap_or_default();
+                    out.push((kind, name));
+                }
+                depth += 1;
+                i += 2;
+                continue;
+            }
+            LK::End => {
+                depth -= 1;
+                i += 2;
+                continue;
+            }
+            _ => {}
+        }
+        i += 1;
+    }
+    Ok(out)
+}
+
 const UNNAMED: &[&str] = &["A2ML", "MOD_COMMON", "MOD_PAR", "IF_DATA", "VARIANT_CODING"];
 
 fn check_written_order(order: &[(String, String)]) -> Result<(), String> {
@@ -214,10 +244,27 @@ pub fn run(args: &Args, rec: &mut Recorder) {
         cfg.max_repeat = 4;
         cfg.opt_pct = rng.urange(30, 80) as u32;
         let mut gen = DocGen::new(&g, cfg);
-        let doc = gen.gen_doc(rng);
+        if rng.chance(1, 4) {
+            // A2ML blocks that cannot be interpreted (reported in non-strict mode, text kept)
+            gen.a2ml_pool = vec![
+                "\n  block \"IF_DATA\" struct { int; \n".to_string(),
+                "\n  struct { unknown_type x; };\n".to_string(),
+                "\n  block \"IF_DATA\" taggedunion { \"A\" uint; };\n".to_string(),
+            ];
+            rec.bump("docs.with_uninterpretable_a2ml_in_pool");
+        }
+        let mut doc = gen.gen_doc(rng);
+        // HEADER and MODULEs in any order inside PROJECT
+        {
+            let project = doc.project_mut();
+            if project.children.len() > 1 && rng.coin() {
+                rng.shuffle(&mut project.children);
+                rec.bump("docs.with_shuffled_project_children");
+            }
+        }
         let lc = if rng.coin() { LayoutCfg::wide(rng) } else { LayoutCfg::c05(rng) };
         let text = render(&doc.flatten(), &lc, rng).text;
-        let (m0, _) = match load_str(&text, false) {
+        let (mut m0, _) = match load_str(&text, false) {
             Ok(Ok(v)) => v,
             Ok(Err(_)) => {
                 rec.bump("rejected");
@@ -238,6 +285,15 @@ pub fn run(args: &Args, rec: &mut Recorder) {
         rec.bump(&format!("modules.{}", m0.project.module.len().min(4)));
         if rec.want_sample() && case % 83 == 2 {
             rec.sample(Json::obj().with("text", Json::s(&clip(&text, 400))));
+        }
+        if rng.chance(1, 5) {
+            // an A2ML text set through the API is content like any other
+            for md in m0.project.module.iter_mut() {
+                if let Some(a) = &mut md.a2ml {
+                    a.a2ml_text.push_str("/* edited through the API */\n");
+                    rec.bump("a2ml_text_edited_before_sort");
+                }
+            }
         }
         let mut ms = m0.clone();
         if let Err((sig, detail)) = guarded(|| ms.sort()) {
@@ -270,6 +326,20 @@ pub fn run(args: &Args, rec: &mut Recorder) {
                 return None;
             }
         };
+        // PROJECT level: HEADER first, then the MODULEs ascending by name
+        if let Ok(po) = project_level_order(&t1) {
+            let mods: Vec<&String> = po.iter().filter(|(k, _)| k == "MODULE").map(|(_, n)| n).collect();
+            let header_pos = po.iter().position(|(k, _)| k == "HEADER");
+            let sorted = mods.windows(2).all(|w| w[0] <= w[1]);
+            if header_pos.is_some_and(|p| p != 0) || !sorted {
+                rec.violation(
+                    "sort(): blocks of PROJECT are not written as HEADER followed by the MODULEs in ascending order",
+                    &format!("{po:?}"),
+                    witness_text("C14", &text, &clip(&t1, 2000)),
+                );
+            }
+            rec.add("project_level_blocks_checked", po.len() as u64);
+        }
         match module_level_order(&t1) {
             Err(e) => rec.violation("sort(): written text not lexable", &e, witness_text("C14", &text, "")),
             Ok(per_module) => {
